@@ -13,14 +13,17 @@ Convex-convex detector (ellipsoid/ellipsoid, ellipsoid/sphere), closed-form fami
 centres lie exactly on a common principal axis, compared with the closed form and, on the implementation alone, with 1e-7
 sideways offsets (continuity), the other surface order and a common rigid motion.  General convex-convex configurations
 (MPR + Newton) remain undecided.
+Broad phase of ContactTrackerSubsystem (coq/C35/C35_bp_*.v): scenes with rotated and translated surface placements and off-origin
+bounding spheres; for every pair the tracker is called directly and compared with getActiveContacts (pruning soundness), with the
+extracted bubble test, and with the same scene after a common rigid motion.
 Not modelled: half-space/ellipsoid, brick, mesh pairs, contact tracking over time (ids, broken contacts)."""
 import os, sys, math
 from vlib import *
 
-PROPS = ['Props/Properties_C35.v', 'Props/Properties_C35_cc.v']
+PROPS = ['Props/Properties_C35.v', 'Props/Properties_C35_cc.v', 'Props/Properties_C35_bp.v']
 EXTRACT = '''From Coq Require Import Extraction ExtrOcamlBasic.
-Require Import Num Vec C35_Model C35_cc_Model.
-Extraction "c35model.ml" cc_axis cc_sphere_radius hs_sphere sphere_sphere tk_hs_sphere tk_sphere_sphere.
+Require Import Num Vec C35_Model C35_cc_Model C35_bp_Model.
+Extraction "c35model.ml" bp_keeps bp_center_G cc_axis cc_sphere_radius hs_sphere sphere_sphere tk_hs_sphere tk_sphere_sphere.
 '''
 def U(r, lo, hi): return r.uniform(lo, hi)
 def vec(r, s): return [r.uniform(-s, s) for _ in range(3)]
@@ -148,6 +151,92 @@ def run_cc(ctx, exe, drv, n):
         ctx.broken.append(('predicate:' + pred[1], pred[2]))
         ctx.report('impl:' + pred[1], pred[2], {'probe_input': pred[0], 'replay_cmd': 'echo "%s" | %s' % (pred[0], exe), 'failing_input': pred[0]})
 
+# ---- broad phase of ContactTrackerSubsystem: rotated placements, off-origin bounding spheres, pairs without a half space
+SHAPES = {0: 'Sphere', 1: 'Ellipsoid', 2: 'off-centre cube mesh', 3: 'off-centre sphere mesh', 4: 'HalfSpace', 5: 'Brick'}
+def gen_tb(r):
+    nb = r.choice([2, 2, 3, 4]); withGround = r.random() < 0.25
+    poses = [vec(r, 3.0) + [U(r, -0.7, 0.7) for _ in range(3)] for _ in range(nb)]
+    surfs = []
+    for b in range(1, nb + 1):
+        for _ in range(r.choice([1, 1, 2])):
+            shape = r.choice([0, 1, 2, 2, 2, 3, 3, 5])
+            par = [U(r, 0.2, 0.6) for _ in range(3)]; offC = [0.0] * 3
+            if shape in (2, 3): offC = [U(r, 0.3, 0.9) * r.choice([-1, 1]) for _ in range(3)] if r.random() < 0.8 else [0.0] * 3
+            pa = vec(r, 3.0) if r.random() < 0.85 else [0.0] * 3          # placement rotation
+            pp = vec(r, 0.5)
+            if shape in (2, 3) and r.random() < 0.7:
+                # put the (rotated, shifted) mesh back near the body origin so that overlaps with the neighbours are frequent
+                R = rotxyz(pa); pp = [-sum(R[i][k] * offC[k] for k in range(3)) + U(r, -0.2, 0.2) for i in range(3)]
+            surfs.append([b, shape] + par + offC + pa + pp)
+    if withGround:
+        shape = r.choice([4, 0, 2]); par = [U(r, 0.2, 0.6) for _ in range(3)]; offC = [U(r, 0.3, 0.9) for _ in range(3)] if shape == 2 else [0.0] * 3
+        surfs.append([0, shape] + par + offC + vec(r, 3.0) + vec(r, 0.5))
+    return {'nb': nb, 'poses': poses, 'surfs': surfs, 'ground': withGround, 'Q': vec(r, 3.0), 'tq': vec(r, 1.0)}
+def tb_line(c, useQ):
+    return 'TB ' + fmt([useQ] + c['Q'] + c['tq'] + [c['nb']] + sum(c['poses'], []) + [len(c['surfs'])] + sum(c['surfs'], []))
+def tb_parse(line):
+    a, b, c = [parse_floats(x) for x in line.split('|')]
+    ns = int(a[0]); W = 1 + 12 + 12 + 4; surf = [a[1 + W * i: 1 + W * (i + 1)] for i in range(ns)]
+    pairs = lambda f: {(int(f[1 + 4 * q]), int(f[2 + 4 * q])): (int(f[3 + 4 * q]), f[4 + 4 * q]) for q in range(int(f[0]))}
+    return surf, pairs(b), pairs(c)
+
+def run_tb(ctx, exe, drv, n):
+    r = ctx.rng; cases = [gen_tb(r) for _ in range(n)]; lines = []
+    for c in cases: lines += [tb_line(c, 0)] + ([] if c['ground'] else [tb_line(c, 1)])
+    rc, out, err = sh([exe], input='\n'.join(lines) + '\n', timeout=1800)
+    outs = [l for l in out.split('\n') if l.strip()]
+    if len(outs) != len(lines) or any(o.startswith('!') for o in outs):
+        ctx.broken.append(('harness:C35_probe:TB', 'probe produced %d lines for %d scenes / exception %s' % (len(outs), len(lines), [o for o in outs if o.startswith('!')][:1]))); return
+    hist = {'scenes': len(cases), 'pairs_in_contact': 0, 'pairs_with_rotated_placement_and_offcentre_bubble': 0, 'contact_kinds': {}, 'moved_scenes': 0}
+    pred = None; mlines = []; mmeta = []; k = 0; nontriv = 0
+    for c in cases:
+        surf, brute, active = tb_parse(outs[k]); line0 = lines[k]; k += 1
+        # (2a) pruning soundness, implementation alone: every pair the narrow phase reports (tracker called directly on the pair) is an active contact
+        if brute: nontriv += 1
+        for pr_, (kind, val) in brute.items():
+            hist['pairs_in_contact'] += 1; hist['contact_kinds'][str(kind)] = hist['contact_kinds'].get(str(kind), 0) + 1
+            s1, s2 = surf[pr_[0]], surf[pr_[1]]
+            offc = lambda s_: (abs(s_[25]) + abs(s_[26]) + abs(s_[27]) > 1e-9) and (abs(s_[13] - 1) + abs(s_[17] - 1) + abs(s_[21] - 1) > 1e-6) and s_[28] < 1e300
+            if offc(s1) or offc(s2): hist['pairs_with_rotated_placement_and_offcentre_bubble'] += 1
+            if pr_ not in active and pred is None:
+                pred = (line0, 'ContactTrackerSubsystem:broad-phase-drops-a-contacting-pair', 'surfaces %d and %d: the narrow-phase tracker called directly reports a contact (kind %d, value %.6g) but getActiveContacts has no contact for the pair' % (pr_[0], pr_[1], kind, val))
+        for pr_ in active:
+            if pr_ not in brute and pred is None:
+                pred = (line0, 'ContactTrackerSubsystem:active-contact-not-confirmed-by-narrow-phase', 'surfaces %d and %d' % pr_)
+        # (3) model: active contacts = brute-force contacts restricted to the pairs the extracted bubble test keeps
+        for pr_ in brute:
+            s1, s2 = surf[pr_[0]], surf[pr_[1]]
+            if s1[28] > 1e300 or s2[28] > 1e300: continue      # half space: infinite bubble, always kept
+            mlines.append('BP ' + fmt([0] + s1[1:13] + s1[13:25] + s1[25:28] + [s1[28]] + s2[1:13] + s2[13:25] + s2[25:28] + [s2[28]])); mmeta.append((line0, pr_, pr_ in active))
+        # (2b) rigid-motion invariance of the contact set (all surfaces on moving bodies)
+        if not c['ground']:
+            surfQ, bruteQ, activeQ = tb_parse(outs[k]); lineQ = lines[k]; k += 1; hist['moved_scenes'] += 1
+            def robust(p, v): return not (v[0] in (1, 2, 4) and abs(v[1]) < 1e-6) and not (v[0] == 3 and v[1] <= 2)
+            a0 = {p for p, v in active.items() if robust(p, v)}; aQ = {p for p, v in activeQ.items() if robust(p, v)}
+            if pred is None and (a0 - set(activeQ) or aQ - set(active)):
+                pred = (lineQ, 'ContactTrackerSubsystem:rigid-motion-changes-the-contact-set', 'contacting pairs %s before and %s after moving all bodies by one rigid transform' % (sorted(active), sorted(activeQ)))
+            elif pred is None:
+                for p in a0 & set(activeQ):
+                    if active[p][0] in (1, 4) and abs(active[p][1] - activeQ[p][1]) > 1e-6 * max(1.0, abs(active[p][1])):
+                        pred = (lineQ, 'ContactTrackerSubsystem:rigid-motion-changes-the-depth', 'pair %s depth %.9g vs %.9g' % (p, active[p][1], activeQ[p][1]))
+    dis = 0; first = None
+    if drv and mlines:
+        rc, o2, e2 = sh([drv], input='\n'.join(mlines) + '\n', timeout=600)
+        mo = [l for l in o2.split('\n') if l.strip()]
+        if len(mo) != len(mlines): ctx.broken.append(('ocaml:C35_drv:BP', 'driver produced %d lines for %d pairs' % (len(mo), len(mlines))))
+        else:
+            for (line0, pr_, isActive), m in zip(mmeta, mo):
+                kept = parse_floats(m)[0] == 1.0
+                if kept != isActive:
+                    dis += 1
+                    if first is None: first = (line0, pr_, kept, isActive)
+    ctx.add_cases(len(lines), nontriv, [{'mode': 'TB', 'scene': lines[0][:200]}])
+    hist['bubble_model_disagreements'] = dis; ctx.extra['broad_phase'] = hist
+    if first: ctx.broken.append(('correspondence:ContactTrackerSubsystem:broad-phase', 'pair %s in narrow-phase contact: the bubble model keeps it = %s, the subsystem reports it = %s; scene=%s' % (first[1], first[2], first[3], first[0][:200])))
+    if pred:
+        ctx.broken.append(('predicate:' + pred[1], pred[2]))
+        ctx.report('impl:' + pred[1], pred[2], {'probe_input': pred[0], 'replay_cmd': 'echo "%s" | %s' % (pred[0], exe), 'failing_input': pred[0]})
+
 def run(ctx):
     ctx.build_repo()
     ok = ctx.coq_props(PROPS)
@@ -208,6 +297,7 @@ def run(ctx):
                 if first: ctx.broken.append(('correspondence:' + first[0], 'implementation and model differ: case=%s %s impl=%s model=%s' % first))
                 if order_bad: ctx.broken.append(('correspondence:GS:surface-order', 'half space not reported as surface 1: %s' % (order_bad,)))
     run_cc(ctx, exe, drv, 120 if quick else 1200)
+    run_tb(ctx, exe, drv, 150 if quick else 1500)
     rc, out, err = sh([exe], input='SEARCH %d %d\n' % (ctx.seed % 1000003, 3000 if quick else 60000), timeout=1800)
     fails = [l for l in out.split('\n') if l.startswith('FAIL')]; done = [l for l in out.split('\n') if l.startswith('DONE')]
     ctx.extra['search'] = {'predicate_evaluations': int(done[0].split()[1]) if done else 0, 'failures': int(done[0].split()[2]) if done else -1}
